@@ -210,6 +210,15 @@ class History:
         if p['id'] in mine:
             return self.fail('ack id %r reused while still outstanding for '
                              'the same client' % p['id'], res)
+        if p['id'] in self.used.get(sid, ()):
+            # "acknowledgements with an already used id are ignored" can only
+            # hold if an id is never issued twice on one connection: a
+            # repeated (or late) ACK of the earlier event would complete
+            # this callback with the earlier arguments
+            return self.fail('ack id %r was issued again on the same client '
+                             'connection after it had been used: a repeated '
+                             'acknowledgement of the earlier event would '
+                             'complete this callback' % p['id'], res)
         mine[p['id']] = tok
         want = ['tok%d' % tok] + gen.expected_args(data)
         if p['nsp'] != ns or not R.deep_eq(p['data'], want):
